@@ -47,18 +47,19 @@ def warm_then(mw=1, timeout=0.05, how="nowait"):
 
 def failing(kind, mw=1, timeout=None):
     return P(f"fail-{kind}-w{mw}", pool(max_workers=mw, timeout=timeout),
-             [NEW, sub("a", kind), sub("b", "ok", 3), WAIT, shutdown(True)])
+             [NEW, sub("a", kind), sub("b", "ok", 3), WAIT, ["probe"], shutdown(True)])
 
 
 def failing_first_ok(kind, mw=2):
     return P(f"okfail-{kind}-w{mw}", pool(max_workers=mw),
-             [NEW, sub("a", "ok", 1), sub("b", kind), sub("c", "ok", 3), WAIT, shutdown(True)])
+             [NEW, sub("a", "ok", 1), sub("b", kind), sub("c", "ok", 3), WAIT, ["probe"],
+              shutdown(True)])
 
 
 def many_unsendable(n=4, mw=1):
     """More failing-to-pickle tasks than the call queue has slots, then a healthy one."""
     ops = [NEW] + [sub(f"x{i}", "bad_arg") for i in range(n)] + [sub("z", "ok", 1), WAIT,
-                                                                  shutdown(True)]
+                                                                  ["probe"], shutdown(True)]
     return P(f"unsendable{n}-w{mw}", pool(max_workers=mw), ops)
 
 
@@ -121,3 +122,157 @@ def kill_workers_shutdown(mw=2, gate=True):
     ops = [NEW, sub("a", "ok", 1), ["result", "a"], sub("g", "gate" if gate else "ok"),
            sub("h", "ok", 2), sub("i", "ok", 3), ["shutdown", True, True], WAIT]
     return P(f"killworkers-w{mw}-g{gate}", pool(max_workers=mw), ops)
+
+
+# ---- more programs (C02-C20) ---------------------------------------------------------------
+def kill_mix(mw=2, timeout=None, init=None, tail_submit=True):
+    ops = [NEW, sub("a", "ok", 1), sub("b", "ok", 2), sub("c", "ok", 3), WAIT]
+    if tail_submit:
+        ops.append(["submit_expect", "z"])
+    ops.append(shutdown(True))
+    return P(f"killmix-w{mw}-t{timeout}-i{init}", pool(max_workers=mw, timeout=timeout, init=init), ops)
+
+
+def kill_gate(mw=2):
+    """One task blocked in its body (released by a second thread), others queued."""
+    return P(f"killgate-w{mw}", pool(max_workers=mw),
+             [NEW, sub("g", "gate"), sub("a", "ok", 1), sub("b", "ok", 2), WAIT, shutdown(True)],
+             [["release", "g"]])
+
+
+def die_then_submit(mw=2):
+    return P(f"die-submit-w{mw}", pool(max_workers=mw),
+             [NEW, sub("a", "ok", 1), ["result", "a"], sub("d", "die"), sub("c", "ok", 3), WAIT,
+              ["submit_expect", "z"], shutdown(True)])
+
+
+def map_prog(chunksize, lens, mw=2, timeout=None, kind="plain"):
+    fn = {1: "sq", 2: "add", 3: "add3"}[len(lens)]
+    return P(f"map-c{chunksize}-l{'x'.join(map(str, lens))}-w{mw}-t{timeout}",
+             pool(kind, mw, timeout),
+             [NEW, ["map", "m", fn, chunksize, list(lens)], shutdown(True)])
+
+
+def cancel_two_threads(mw=1):
+    return P(f"cancel2-w{mw}", pool(max_workers=mw),
+             [NEW, sub("a", "ok", 1), sub("b", "ok", 2), sub("c", "ok", 3), sub("d", "ok", 4),
+              sub("e", "ok", 5), sub("f", "ok", 6), WAIT, shutdown(True)],
+             [["cancel", "f"], ["cancel", "e"], ["cancel", "c"]])
+
+
+def resize_with_map(old=1, new=2, timeout=0.05):
+    return P(f"resize-map-{old}to{new}-t{timeout}", pool("reusable", old, timeout),
+             [NEW, sub("a", "ok", 1), sub("b", "ok", 2), ["reuse", dict(max_workers=new)],
+              ["map", "m", "sq", 2, [3]], WAIT, shutdown(True)])
+
+
+def mixed_failures(kinds, mw=1, timeout=None):
+    ops = [NEW]
+    for i, k in enumerate(kinds):
+        ops.append(sub(f"k{i}", k, *( [i] if k == "ok" else [])))
+    ops += [WAIT, sub("z", "ok", 9), ["result", "z"], ["probe"], shutdown(True)]
+    return P(f"mixed-{'-'.join(kinds)}-w{mw}", pool(max_workers=mw, timeout=timeout), ops)
+
+
+def feeder_vs_break(mw=2):
+    """F7 shape: a task whose argument fails to pickle slowly (feeder error path) while a
+    worker dies (terminate_broken)."""
+    return P(f"feeder-vs-break-w{mw}", pool(max_workers=mw),
+             [NEW, sub("a", "ok", 1), ["result", "a"], sub("d", "die"),
+              sub("s", "slow_bad_arg", 0.001), sub("c", "ok", 3), WAIT, shutdown(True)])
+
+
+def shutdown_form(k, form, mw=2, timeout=None, kind="plain", cpu=2):
+    ops = [NEW] + [sub(f"t{i}", "ok", i) for i in range(k)]
+    if form == "wait":
+        ops += [shutdown(True), ["submit_expect", "z"]]
+    elif form == "nowait":
+        ops += [shutdown(False), ["submit_expect", "z"], WAIT]
+    elif form == "with":
+        ops += [["with_exit"], ["submit_expect", "z"]]
+    elif form == "del":
+        ops += [["del"], WAIT]
+    elif form == "exit":
+        pass
+    return P(f"shut-{form}-k{k}-w{mw}-t{timeout}-{kind}{cpu}",
+             pool(kind, mw, timeout, cpu_count=cpu), ops)
+
+
+def shutdown_late_error(mw=1):
+    return P(f"shut-late-pickle-error-w{mw}", pool(max_workers=mw),
+             [NEW, sub("a", "ok", 1), sub("x", "slow_bad_arg", 0.001), sub("b", "ok", 2),
+              shutdown(True)])
+
+
+def forced(mw=2, reusable=False, queued=3):
+    ops = [NEW, sub("a", "ok", 1), ["result", "a"], sub("g", "gate")]
+    ops += [sub(f"q{i}", "ok", i) for i in range(queued)]
+    if reusable:
+        ops += [["reuse", dict(max_workers=mw, kill_workers=True, reuse=False)],
+                sub("n", "ok", 5), ["result", "n"], shutdown(True)]
+    else:
+        ops += [["shutdown", True, True], ["submit_expect", "z"]]
+    return P(f"forced-w{mw}-r{reusable}-q{queued}", pool("reusable" if reusable else "plain", mw),
+             ops)
+
+
+def forced_two_gates(mw=2):
+    return P(f"forced-2gates-w{mw}", pool(max_workers=mw),
+             [NEW, sub("g1", "gate"), sub("g2", "gate"), sub("q", "ok", 1),
+              ["shutdown", True, True]])
+
+
+def idle_then_submit(mw=2, timeout=0.05, init=None):
+    return P(f"idle-submit-w{mw}-i{init}", pool(max_workers=mw, timeout=timeout, init=init),
+             [NEW, sub("a", "ok", 1), ["result", "a"], ["sleep", 0.2], sub("b", "ok", 2),
+              sub("c", "ok", 3), WAIT, shutdown(True)])
+
+
+def bursts(mw=2, timeout=0.05):
+    return P(f"bursts-w{mw}", pool(max_workers=mw, timeout=timeout),
+             [NEW, sub("a", "ok", 1), sub("b", "ok", 2), WAIT, ["sleep", 0.2], sub("c", "ok", 3),
+              WAIT, ["sleep", 0.2], sub("d", "ok", 4), WAIT, shutdown(True)])
+
+
+def timeout_resize(old=2, new=1, timeout=0.05):
+    return P(f"timeout-resize-{old}to{new}", pool("reusable", old, timeout),
+             [NEW, sub("a", "ok", 1), ["result", "a"], ["reuse", dict(max_workers=new)],
+              sub("b", "ok", 2), sub("c", "ok", 3), WAIT, shutdown(True)])
+
+
+def saturate(mw=2, extra=1, timeout=None, kind="plain"):
+    keys = [f"g{i}" for i in range(mw + extra)]
+    ops = [NEW] + [sub(k, "gate") for k in keys] + [["expect_inside", mw]]
+    ops += [["release", k] for k in keys] + [WAIT, shutdown(True)]
+    return P(f"saturate-w{mw}+{extra}-t{timeout}-{kind}", pool(kind, mw, timeout), ops)
+
+
+def saturate_after_idle(mw=2, timeout=0.05):
+    keys = [f"g{i}" for i in range(mw)]
+    ops = [NEW, sub("a", "ok", 1), ["result", "a"], ["sleep", 0.2]]
+    ops += [sub(k, "gate") for k in keys] + [["expect_inside", mw]]
+    ops += [["release", k] for k in keys] + [WAIT, shutdown(True)]
+    return P(f"saturate-idle-w{mw}", pool(max_workers=mw, timeout=timeout), ops)
+
+
+def saturate_resize(old=1, new=2, timeout=None):
+    keys = [f"g{i}" for i in range(max(old, new) + 1)]
+    ops = [NEW, sub("a", "ok", 1), ["result", "a"], ["reuse", dict(max_workers=new)]]
+    ops += [sub(k, "gate") for k in keys] + [["expect_inside", new]]
+    ops += [["release", k] for k in keys] + [WAIT, shutdown(True)]
+    return P(f"saturate-resize-{old}to{new}-t{timeout}", pool("reusable", old, timeout), ops)
+
+
+def resize_inflight(old, new, timeout=None, inflight=1):
+    """Resize while `inflight` tasks are pending; a gate task is released by a second thread."""
+    ops = [NEW, sub("a", "ok", 1), ["result", "a"], sub("g", "gate")]
+    ops += [sub(f"f{i}", "ok", i) for i in range(inflight)]
+    ops += [["reuse", dict(max_workers=new)], sub("b", "ok", 2), WAIT, shutdown(True)]
+    return P(f"resize-inflight-{old}to{new}-t{timeout}-f{inflight}", pool("reusable", old, timeout),
+             ops, [["release", "g"]])
+
+
+def lifecycle_twice(mw=2, timeout=None):
+    return P(f"lifecycle2-w{mw}-t{timeout}", pool(max_workers=mw, timeout=timeout),
+             [NEW, sub("a", "ok", 1), WAIT, shutdown(True), NEW, sub("b", "ok", 2), WAIT,
+              shutdown(True)])
